@@ -3,7 +3,8 @@
 R-PANIC: every panic site reachable from a public function (after folding infeasible conditions) must be
 in the documented-panic table.  R-BOUNDS: every raw memory access through a slice argument is covered by
 a length check established earlier on the path; every raw store fits its destination object, with
-sufficient alignment; MaybeUninit results are fully initialised."""
+sufficient alignment; MaybeUninit results are fully initialised.  R-ATOMIC: in the slice writers a documented panic is never reachable
+after part of the destination has been written (path-sensitive write marker kept in the abstract heap)."""
 import re
 import terms as tm
 from common import api_roots, tydef, vec_info, leaves_plain, hidden_offsets, TRUSTED_COMMON
@@ -15,7 +16,9 @@ EXPLANATION = ('For every reachable function the interpreter records each MIR As
                'condition under which it fires; conditions that fold to false (constant clamp bounds, enum-derived indices, '
                'lengths already checked) are discarded; every remaining site must match the documented-panic table. '
                'Raw loads/stores are checked against the length lower bound known on the path and the size/alignment of '
-               'the destination object.')
+               'the destination object; every returned aggregate must be fully initialised (partial raw stores into MaybeUninit temporaries), '
+               'and in write_to_slice / write_cols_to_slice no panic site may be reachable after a write to the destination (the documented '
+               'length panic precedes any store, R-ATOMIC).')
 
 CONFIGS_QUICK = ['sse2', 'scalar']
 CONFIGS_THOROUGH = ['sse2', 'sse2-rel', 'scalar', 'coresimd', 'libm', 'neon', 'wasm32']
